@@ -3195,6 +3195,10 @@ int32 encryptRecord(ssl_t *ssl, int32 type, int32 hsMsgType,
     unsigned char *encryptStart;
     int32 rc, ptLen, divLen, modLen;
 
+    if (sslWriteSeqExhausted(ssl))
+    {
+        return PS_LIMIT_FAIL;
+    }
     encryptStart = out->end + ssl->recordHeadLen;
 
     if (!USING_TLS_1_3(ssl))
